@@ -257,6 +257,9 @@ func init() {
 				if _, isMap := v.Type().Underlying().(*types.Map); !isMap {
 					continue
 				}
+				if t.holder[v] {
+					continue // a map of the engine's own that holds the caller's values: not the caller's map
+				}
 				if refs := v.Referrers(); refs != nil {
 					for _, r := range *refs {
 						if site, ok := r.(ssa.CallInstruction); ok {
